@@ -32,6 +32,7 @@ EXPLANATION = (
     "ordering of the 10/50/90 % lifetimes.")
 EXPLANATION += (" R-C10-4: per-point knee values spread over the hysteresis table follow the table's index layout (hysteresis_index outermost, assessment_point_index fastest), by a shape algebra over ones/array/tile/repeat/flatten. R-C10-5: the lifetime branches switch at the end of the table the failure position refers to (shared with R-C09-6) - needed for monotonicity in the load level.")
 EXPLANATION += (' R-C10-6: in the damage modules the per-point assessment and component-curve parameters are neither reduced over the batch (np.min/np.max/.min()/...) nor re-ordered by their index labels (sort_index/sort_values/reindex).')
+EXPLANATION += (' R-C10-7: incremental sums over classes (outer loop over j, inner loop from a carried start to U(j)) carry exactly the end of the processed range (affine equality), so every class is added once whatever class the loop starts at, and a loop start derived from a minimum over the points is clamped to a valid class index.')
 ASSUMPTIONS = [
     "pandas groupby(level).reduction() reduces within each group only; element-wise numpy/pandas operations keep rows apart",
 ]
@@ -247,6 +248,57 @@ def run(ctx):
     ctx.attempt(_r4)
     ctx.attempt(_r5)
     ctx.attempt(_r6)
+    ctx.attempt(_r7)
+
+
+def _r7(ctx):
+    """Incremental sums over classes shared by all points of a batch.  A loop `for j in range(a, b): for i in range(p, U(j)):
+    ...; p = E(j)` adds every class exactly once - whatever class it starts at, i.e. whatever the other points of the batch
+    are - iff the carried start equals the end of the range just processed (E(j) == U(j), affine equality); and a start value
+    derived from a per-point minimum must be clamped to a valid class index (>= 0)."""
+    from ..domains import affine_eval
+    prog = ctx.prog
+    ctx.rule("R-C10-7", floor=1, what="incremental class sums carry 'next unprocessed class' and start at a valid class")
+    mods = ("pylife.strength.damage_parameter", "pylife.strength.fkm_nonlinear.damage_calculator",
+            "pylife.strength.fkm_nonlinear.damage_calculator_praj_miner")
+    n = 0
+    for key, fi in sorted(prog.functions.items()):
+        if fi.module.name not in mods:
+            continue
+        for outer in [x for x in walk_function(fi.node) if isinstance(x, ast.For) and isinstance(x.target, ast.Name) and
+                      isinstance(x.iter, ast.Call) and call_name(x.iter) == "range"]:
+            jv = outer.target.id
+            for inner in [x for x in outer.body if isinstance(x, ast.For) and isinstance(x.iter, ast.Call) and
+                          call_name(x.iter) == "range" and len(x.iter.args) == 2 and isinstance(x.iter.args[0], ast.Name)]:
+                pv = inner.iter.args[0].id
+                upd = [x for x in outer.body if isinstance(x, ast.Assign) and isinstance(x.targets[0], ast.Name) and
+                       x.targets[0].id == pv and outer.body.index(x) > outer.body.index(inner)]
+                if not upd:
+                    continue
+                n += 1
+                atom = lambda e: e.id if isinstance(e, ast.Name) else None
+                U = affine_eval(inner.iter.args[1], atom)
+                E = affine_eval(upd[0].value, atom)
+                if U is not None and E is not None and U == E:
+                    ctx.holds(fi, upd[0], "%s: carried start %s = %s equals the end of the processed range: every class is added once"
+                              % (fi.name, pv, norm_text(upd[0].value)))
+                else:
+                    ctx.violated(fi, upd[0], "%s: the inner loop processes classes %s..%s-1 and then carries %s = %s: classes are added "
+                                 "again in the next round (or skipped), and how often depends on the class the outer loop started "
+                                 "at - i.e. on the other points of the batch" %
+                                 (fi.name, pv, norm_text(inner.iter.args[1]), pv, norm_text(upd[0].value)), text="carried start " + fi.name)
+                lo = outer.iter.args[0] if len(outer.iter.args) >= 2 else None
+                if lo is not None and any(isinstance(x, ast.Call) and call_name(x) in ("min", "np.min") for x in ast.walk(lo)):
+                    clamped = isinstance(lo, ast.Call) and call_name(lo) in ("max", "np.maximum") and \
+                        any(const_value(a) == 0 for a in lo.args)
+                    if clamped:
+                        ctx.holds(fi, outer, "%s: outer loop starts at %s: a valid class index" % (fi.name, norm_text(lo)))
+                    else:
+                        ctx.violated(fi, outer, "%s: the outer loop starts at %s, which is -1 for a point whose endurance limit lies above "
+                                     "all its classes: class index -1 wraps around to the last class" % (fi.name, norm_text(lo)),
+                                     text="loop start " + fi.name)
+    if n == 0:
+        raise AnalysisError("no incremental class sum found in the damage modules")
 
 
 def _r6(ctx):
@@ -633,6 +685,26 @@ LD = "src/pylife/strength/fkm_load_distribution.py"
 
 def variants():
     out = []
+
+    def carry_j(tree):
+        f = find_func(tree, "DamageCalculatorPRAJ._compute_xbar_minus_2")
+        for n in ast.walk(f):
+            if isinstance(n, ast.Assign) and isinstance(n.targets[0], ast.Name) and n.targets[0].id == "previous_j" and \
+                    isinstance(n.value, ast.BinOp):
+                n.value = n.value.left
+                return True
+        return False
+    out.append(witness("carried start is j instead of j + 1", DC, carry_j, "R-C10-7"))
+
+    def start_unclamped(tree):
+        f = find_func(tree, "DamageCalculatorPRAJ._compute_xbar_minus_2")
+        for n in ast.walk(f):
+            if isinstance(n, ast.For) and isinstance(n.iter, ast.Call) and n.iter.args and isinstance(n.iter.args[0], ast.Call) and \
+                    call_name(n.iter.args[0]) == "max":
+                n.iter.args[0] = n.iter.args[0].args[0]
+                return True
+        return False
+    out.append(witness("outer loop starts at min(q) without clamping", DC, start_unclamped, "R-C10-7"))
 
     def min_over_points(tree):
         f = find_func(tree, "DamageCalculatorPRAJ._initialize_binning")
